@@ -332,55 +332,42 @@ func sameDestination(from *ssa.BasicBlock, a, b *ssa.BasicBlock) bool {
 // MetaData entry. Every routine of the model visitor that holds a node of a grammar context with a REPEAT child and hands back a
 // field built for that node makes the field's IsRepeat depend on that node's REPEAT(): some store into IsRepeat of the returned
 // object takes a value derived from REPEAT(), or sits under a test of it. A return path that builds the field without it (an early
-// return for "the type is a MetaData entry") models `repeat ClOrdID,` as a single value. A return that hands the node on to another
-// routine leaves the obligation with that routine.
+// return for "the type is a MetaData entry") models `repeat ClOrdID,` as a single value.
+//
+// Where the store sits is not part of the property: it may be in the routine itself, or in a routine of the repository that is
+// given the field (or produces the returned field) together with the node or with a value made from the node's REPEAT() - the store
+// is then looked for in that routine, with its parameters standing for the node / the keyword (repeatCk.carries). A return that
+// hands the node on to a routine that is examined on its own (or that cannot be resolved) leaves the obligation with that routine;
+// a hand-over to a plain helper is followed. A routine that leaves the keyword to its callers is in order when every call site in
+// the repository completes the field it gets back from the REPEAT() of the node it passed (repeatCk.completedByCallers).
 func c08RepeatIsModelled(w *World, r *Report, ctxs map[string]*CtxInfo) {
 	const rule = "C08/repeat-is-modelled"
 	n := 0
-	objBase := func(v ssa.Value) ssa.Value {
-		for i := 0; i < 16; i++ {
-			switch x := v.(type) {
-			case *ssa.TypeAssert:
-				v = x.X
-			case *ssa.MakeInterface:
-				v = x.X
-			case *ssa.ChangeInterface:
-				v = x.X
-			case *ssa.ChangeType:
-				v = x.X
-			case *ssa.Extract:
-				if ta, ok := x.Tuple.(*ssa.TypeAssert); ok {
-					v = ta.X
-				} else {
-					return v
-				}
-			default:
-				return v
+	k := &repeatCk{w: w, ctxs: ctxs}
+	objBase := fieldObjBase
+	// the nodes with a REPEAT child a routine holds: parameters and the bindings of a type switch
+	type node struct {
+		v     ssa.Value
+		ctx   string
+		scope *ssa.BasicBlock // the block from which the node is known (entry for a parameter, the ok arm for a binding)
+		edge  *ssa.BasicBlock // for a binding: the branch block whose ok edge opens the scope
+	}
+	hasRepeat := func(t types.Type) string {
+		cn := grammarCtxName(t)
+		if ci := ctxs[cn]; ci != nil {
+			if _, ok := ci.Children["REPEAT"]; ok {
+				return cn
 			}
 		}
-		return v
+		return ""
 	}
+	var examined []*ssa.Function
+	nodesOf := map[*ssa.Function][]node{}
 	for _, fn := range parsePhaseFuncs(w) {
 		if fn.Pkg != w.Parser || recvNamedCore(fn) != "PacketDslVisitorImpl" {
 			continue
 		}
-		// the nodes with a REPEAT child this routine holds: parameters and the bindings of a type switch
-		type node struct {
-			v     ssa.Value
-			ctx   string
-			scope *ssa.BasicBlock // the block from which the node is known (entry for a parameter, the ok arm for a binding)
-			edge  *ssa.BasicBlock // for a binding: the branch block whose ok edge opens the scope
-		}
 		var nodes []node
-		hasRepeat := func(t types.Type) string {
-			cn := grammarCtxName(t)
-			if ci := ctxs[cn]; ci != nil {
-				if _, ok := ci.Children["REPEAT"]; ok {
-					return cn
-				}
-			}
-			return ""
-		}
 		for _, p := range fn.Params {
 			if cn := hasRepeat(p.Type()); cn != "" {
 				nodes = append(nodes, node{p, cn, fn.Blocks[0], nil})
@@ -418,60 +405,21 @@ func c08RepeatIsModelled(w *World, r *Report, ctxs map[string]*CtxInfo) {
 				}
 			}
 		})
-		cnt := 0
-		for _, nd := range nodes {
-			// REPEAT() read from this node
-			var reads []ssa.Value
-			forEachInstr(fn, func(_ *ssa.BasicBlock, ins ssa.Instruction) {
-				c, ok := ins.(*ssa.Call)
-				if !ok {
-					return
-				}
-				if recv, ai, ok := w.accessorOf(c, ctxs); ok && ai.Known && ai.What == "REPEAT" && (sameValue(recv, nd.v) || sameCellValue(recv, nd.v)) {
-					reads = append(reads, c)
-				}
-			})
-			derives := func(v ssa.Value, at *ssa.BasicBlock) bool {
-				// the value is made from a REPEAT() read, or the store sits under a test of one
-				seen := map[ssa.Value]bool{}
-				var walk func(x ssa.Value, d int) bool
-				walk = func(x ssa.Value, d int) bool {
-					if x == nil || d > 8 || seen[x] {
-						return false
-					}
-					seen[x] = true
-					for _, rd := range reads {
-						if x == rd {
-							return true
-						}
-					}
-					if in, ok := x.(ssa.Instruction); ok {
-						for _, op := range in.Operands(nil) {
-							if *op != nil && walk(*op, d+1) {
-								return true
-							}
-						}
-					}
-					return false
-				}
-				if walk(v, 0) {
-					return true
-				}
-				for _, bb := range fn.Blocks {
-					cond := branchCond(bb)
-					if cond == nil {
-						continue
-					}
-					if tv, _, ok := nilTest(cond); ok {
-						for _, rd := range reads {
-							if stripIdentity(tv) == rd && (edgeDominates(bb, 0, at) || edgeDominates(bb, 1, at)) {
-								return true
-							}
-						}
-					}
-				}
-				return false
+		examined = append(examined, fn)
+		nodesOf[fn] = nodes
+	}
+	// the routine deals with nodes of this context itself (and is examined for them)
+	examinedFor := func(g *ssa.Function, ctx string) bool {
+		for _, nd := range nodesOf[g] {
+			if nd.ctx == ctx {
+				return true
 			}
+		}
+		return false
+	}
+	for _, fn := range examined {
+		cnt := 0
+		for _, nd := range nodesOf[fn] {
 			for _, b := range fn.Blocks {
 				ret, ok := b.Instrs[len(b.Instrs)-1].(*ssa.Return)
 				if !ok || len(ret.Results) != 1 {
@@ -497,7 +445,20 @@ func c08RepeatIsModelled(w *World, r *Report, ctxs map[string]*CtxInfo) {
 						}
 					}
 					if passes {
-						continue
+						// the obligation goes with the node to a routine that is examined on its own, or out of sight; a plain helper
+						// of the repository is looked into instead
+						follow := false
+						if gs := calleesOfAll(c); len(gs) > 0 {
+							follow = true
+							for _, g := range gs {
+								if g == nil || g.Blocks == nil || !w.isSubjectFunc(g) || examinedFor(g, nd.ctx) {
+									follow = false
+								}
+							}
+						}
+						if !follow {
+							continue
+						}
 					}
 				}
 				isField := func(t types.Type) bool { return modelTypeName(t) == "Field" }
@@ -514,26 +475,17 @@ func c08RepeatIsModelled(w *World, r *Report, ctxs map[string]*CtxInfo) {
 				n++
 				cnt++
 				key := fmt.Sprintf("%s: the field handed back for a %s #%d carries its `repeat`", fnKey(fn), nd.ctx, cnt)
-				good := false
-				forEachInstr(fn, func(sb *ssa.BasicBlock, ins ssa.Instruction) {
-					st, ok := ins.(*ssa.Store)
-					if !ok {
-						return
+				good := k.carries(fn, obj, []ssa.Value{nd.v}, nil, false, 0)
+				if !good {
+					// left to the callers: every call site completes the field it gets back
+					if p, isParam := nd.v.(*ssa.Parameter); isParam {
+						for i, q := range fn.Params {
+							if q == p && k.completedByCallers(fn, i, 0) {
+								good = true
+							}
+						}
 					}
-					fa, ok := st.Addr.(*ssa.FieldAddr)
-					if !ok {
-						return
-					}
-					if tn, fname, _, _ := fieldOf(fa); tn != "Field" || fname != "IsRepeat" {
-						return
-					}
-					if objBase(fa.X) != obj && !sameCellValue(objBase(fa.X), obj) {
-						return
-					}
-					if derives(st.Val, sb) {
-						good = true
-					}
-				})
+				}
 				if good {
 					r.pass(rule, key, w.instrPos(ret), "")
 				} else {
@@ -545,4 +497,309 @@ func c08RepeatIsModelled(w *World, r *Report, ctxs map[string]*CtxInfo) {
 	if n == 0 {
 		r.fail(rule, "fields built for repeatable nodes found", "internal/parser/packet_dsl_parser.go", "no routine of the model visitor hands back a field for a grammar node that has a REPEAT child")
 	}
+}
+
+// fieldObjBase: the object behind a returned / passed field value (interface wrapping and type assertions taken off).
+func fieldObjBase(v ssa.Value) ssa.Value {
+	for i := 0; i < 16; i++ {
+		switch x := v.(type) {
+		case *ssa.TypeAssert:
+			v = x.X
+		case *ssa.MakeInterface:
+			v = x.X
+		case *ssa.ChangeInterface:
+			v = x.X
+		case *ssa.ChangeType:
+			v = x.X
+		case *ssa.Extract:
+			if ta, ok := x.Tuple.(*ssa.TypeAssert); ok {
+				v = ta.X
+			} else {
+				return v
+			}
+		default:
+			return v
+		}
+	}
+	return v
+}
+
+// repeatCk decides whether a field object gets an IsRepeat that depends on the REPEAT() of a grammar node, across the routines of
+// the repository the object and the keyword travel through.
+type repeatCk struct {
+	w    *World
+	ctxs map[string]*CtxInfo
+}
+
+// reads: the REPEAT() calls in fn whose receiver is one of the nodes.
+func (k *repeatCk) reads(fn *ssa.Function, nodes []ssa.Value) []ssa.Value {
+	var out []ssa.Value
+	if len(nodes) == 0 {
+		return nil
+	}
+	forEachInstr(fn, func(_ *ssa.BasicBlock, ins ssa.Instruction) {
+		c, ok := ins.(*ssa.Call)
+		if !ok {
+			return
+		}
+		recv, ai, ok := k.w.accessorOf(c, k.ctxs)
+		if !ok || !ai.Known || ai.What != "REPEAT" {
+			return
+		}
+		for _, nd := range nodes {
+			if sameValue(recv, nd) || sameCellValue(recv, nd) {
+				out = append(out, c)
+				return
+			}
+		}
+	})
+	return out
+}
+
+// madeFrom: the value is computed from one of src.
+func (k *repeatCk) madeFrom(v ssa.Value, src []ssa.Value) bool {
+	seen := map[ssa.Value]bool{}
+	var walk func(x ssa.Value, d int) bool
+	walk = func(x ssa.Value, d int) bool {
+		if x == nil || d > 8 || seen[x] {
+			return false
+		}
+		seen[x] = true
+		for _, s := range src {
+			if x == s {
+				return true
+			}
+		}
+		if y := stripIdentity(x); y != x {
+			return walk(y, d+1)
+		}
+		if in, ok := x.(ssa.Instruction); ok {
+			for _, op := range in.Operands(nil) {
+				if *op != nil && walk(*op, d+1) {
+					return true
+				}
+			}
+		}
+		return false
+	}
+	return walk(v, 0)
+}
+
+// underTestOf: the block is reached only over an edge of a nil test of one of src; the block that makes the test.
+func (k *repeatCk) underTestOf(fn *ssa.Function, at *ssa.BasicBlock, src []ssa.Value) *ssa.BasicBlock {
+	for _, bb := range fn.Blocks {
+		cond := branchCond(bb)
+		if cond == nil {
+			continue
+		}
+		if tv, _, ok := nilTest(cond); ok {
+			for _, s := range src {
+				if stripIdentity(tv) == s && (edgeDominates(bb, 0, at) || edgeDominates(bb, 1, at)) {
+					return bb
+				}
+			}
+		}
+	}
+	return nil
+}
+
+// carries: some store into IsRepeat of obj depends on the keyword - on a REPEAT() read from one of nodes, or on one of src (values
+// already known to be made from it; always: whatever is done here happens under a test of it). The store is in fn, or in a routine
+// that fn gives obj to, or gets obj from, together with a node or a value made from the keyword.
+func (k *repeatCk) carries(fn *ssa.Function, obj ssa.Value, nodes, src []ssa.Value, always bool, depth int) bool {
+	return len(k.carriesAt(fn, obj, nodes, src, always, depth, false)) > 0
+}
+
+// carriesAt: where in fn that happens - the blocks of the stores / calls that do it, for one that sits under a test of the keyword
+// the block that makes the test (all of them when all is set, else the first).
+func (k *repeatCk) carriesAt(fn *ssa.Function, obj ssa.Value, nodes, src []ssa.Value, always bool, depth int, all bool) []*ssa.BasicBlock {
+	if depth > 4 || fn == nil || fn.Blocks == nil {
+		return nil
+	}
+	obj = fieldObjBase(obj)
+	src = append(src[:len(src):len(src)], k.reads(fn, nodes)...)
+	same := func(v ssa.Value) bool {
+		b := fieldObjBase(v)
+		return b == obj || sameCellValue(b, obj)
+	}
+	isNode := func(v ssa.Value) bool {
+		for _, nd := range nodes {
+			if sameValue(v, nd) || sameCellValue(v, nd) || fieldObjBase(v) == fieldObjBase(nd) {
+				return true
+			}
+		}
+		return false
+	}
+	var at []*ssa.BasicBlock
+	forEachInstr(fn, func(sb *ssa.BasicBlock, ins ssa.Instruction) {
+		if len(at) > 0 && !all {
+			return
+		}
+		switch x := ins.(type) {
+		case *ssa.Store:
+			fa, ok := x.Addr.(*ssa.FieldAddr)
+			if !ok {
+				return
+			}
+			if tn, fname, _, _ := fieldOf(fa); tn != "Field" || fname != "IsRepeat" {
+				return
+			}
+			if !same(fa.X) {
+				return
+			}
+			if always || k.madeFrom(x.Val, src) {
+				at = append(at, sb)
+			} else if tb := k.underTestOf(fn, sb, src); tb != nil {
+				at = append(at, tb)
+			}
+		case *ssa.Call:
+			args := x.Call.Args
+			if x.Call.IsInvoke() {
+				return
+			}
+			isResult := ssa.Value(x) == obj
+			objArg := -1
+			for i, a := range args {
+				if same(a) {
+					objArg = i
+				}
+			}
+			if !isResult && objArg < 0 {
+				return
+			}
+			callees := calleesOfAll(x)
+			if len(callees) == 0 {
+				return
+			}
+			tb := k.underTestOf(fn, sb, src)
+			under := always || tb != nil
+			for _, g := range callees {
+				if g == nil || g.Blocks == nil || !k.w.isSubjectFunc(g) {
+					return
+				}
+				off := len(g.Params) - len(args) // a method value: the receiver is bound, not passed
+				if off < 0 || off > 1 {
+					return
+				}
+				var gn, gs []ssa.Value
+				for i, a := range args {
+					if i == objArg {
+						continue
+					}
+					if isNode(a) {
+						gn = append(gn, g.Params[i+off])
+					} else if k.madeFrom(a, src) {
+						gs = append(gs, g.Params[i+off])
+					}
+				}
+				if !under && len(gn) == 0 && len(gs) == 0 {
+					return
+				}
+				ok := objArg >= 0 && k.carries(g, g.Params[objArg+off], gn, gs, under, depth+1)
+				if !ok && isResult {
+					ok = k.returnsCarry(g, gn, gs, under, depth+1)
+				}
+				if !ok {
+					return
+				}
+			}
+			if tb != nil {
+				at = append(at, tb)
+			} else {
+				at = append(at, sb)
+			}
+		}
+	})
+	return at
+}
+
+// returnsCarry: every field g hands back carries the keyword (g's parameters nodes / src standing for the node / the keyword).
+func (k *repeatCk) returnsCarry(g *ssa.Function, nodes, src []ssa.Value, always bool, depth int) bool {
+	if depth > 4 || g == nil || g.Blocks == nil {
+		return false
+	}
+	n := 0
+	for _, b := range g.Blocks {
+		ret, ok := b.Instrs[len(b.Instrs)-1].(*ssa.Return)
+		if !ok {
+			continue
+		}
+		if len(ret.Results) == 0 {
+			return false
+		}
+		robj := fieldObjBase(ret.Results[0])
+		if c, isConst := robj.(*ssa.Const); isConst && c.IsNil() {
+			continue
+		}
+		if !k.carries(g, robj, nodes, src, always, depth) {
+			return false
+		}
+		n++
+	}
+	return n > 0
+}
+
+// completedByCallers: fn hands back a field for the node in its parameter idx and leaves `repeat` to its callers: every call site
+// in the repository (there is one, and none is out of sight) completes the field it gets back from the REPEAT() of the node it
+// passed - itself or, handing the field on unchanged, through its own callers.
+func (k *repeatCk) completedByCallers(fn *ssa.Function, idx int, depth int) bool {
+	if depth > 2 {
+		return false
+	}
+	cgn := k.w.CallGraph().Nodes[fn]
+	if cgn == nil {
+		return false
+	}
+	real := 0
+	for _, e := range cgn.In {
+		if e.Caller.Func.Synthetic != "" {
+			continue // pointer-receiver wrappers and bound-method thunks: not call sites of the program text
+		}
+		real++
+		site, ok := e.Site.(*ssa.Call)
+		if !ok || site.Call.IsInvoke() || site.Call.StaticCallee() != fn || idx >= len(site.Call.Args) {
+			return false
+		}
+		cf := e.Caller.Func
+		// the field as it came back is not handed out on a way that goes round the completion
+		var bare []*ssa.BasicBlock
+		for _, b := range cf.Blocks {
+			if ret, ok := b.Instrs[len(b.Instrs)-1].(*ssa.Return); ok && len(ret.Results) == 1 && fieldObjBase(ret.Results[0]) == ssa.Value(site) {
+				bare = append(bare, b)
+			}
+		}
+		if at := k.carriesAt(cf, site, []ssa.Value{site.Call.Args[idx]}, nil, false, 0, true); len(at) > 0 {
+			covered := true
+			for _, b := range bare {
+				dom := false
+				for _, a := range at {
+					if a.Dominates(b) {
+						dom = true
+					}
+				}
+				if !dom {
+					covered = false
+				}
+			}
+			if covered {
+				continue
+			}
+			return false
+		}
+		// handed back unchanged by a routine that got the node from its own caller
+		up := false
+		if p, isParam := stripIdentity(site.Call.Args[idx]).(*ssa.Parameter); isParam && p.Parent() == cf {
+			if len(bare) > 0 {
+				for i, q := range cf.Params {
+					if q == p && k.completedByCallers(cf, i, depth+1) {
+						up = true
+					}
+				}
+			}
+		}
+		if !up {
+			return false
+		}
+	}
+	return real > 0
 }
